@@ -89,7 +89,7 @@ def run(m, chk):
                    func=CL, construct="target weights of the final fit come from the curve")
     from .extra import abs_inside
 
-    abs_inside(r, chk, ["curves.Curve.fit_curve", "curves.Curve.clean"], floor=2)
+    abs_inside(r, chk, ["curves.Curve.fit_curve", "curves.Curve.clean"], floor=1)
     from .extra import error_quadratic
 
     error_quadratic(r, chk, "heavy.LeastSquare.func2func")
